@@ -24,11 +24,17 @@ def model_check(res, tier):
             dict(spec_dir="c18", module="MprMC", cfg="Mpr_penetration_1.cfg", workers=5, heap="3g", tag="mpr_p"),
             dict(spec_dir="c18", module="MprMC", cfg="Mpr_badexpand.cfg", workers=2, heap="1g", tag="mpr_b"),
             dict(spec_dir="c18", module="MprMC", cfg="Mpr_cycle.cfg", workers=1, heap="1g", tag="mpr_c"),
-            dict(spec_dir="c18", module="MprMC", cfg="Mpr_aliased.cfg", workers=1, heap="1g", tag="mpr_a")]
+            dict(spec_dir="c18", module="MprMC", cfg="Mpr_aliased.cfg", workers=1, heap="1g", tag="mpr_a"),
+            dict(spec_dir="c18", module="MprMC", cfg="Mpr_intersection_s7.cfg", workers=3, heap="2g", tag="mpr_is7"),
+            dict(spec_dir="c18", module="MprMC", cfg="Mpr_penetration_s7.cfg", workers=3, heap="2g", tag="mpr_ps7"),
+            dict(spec_dir="c18", module="MprMC", cfg="Mpr_unnorm_s7.cfg", workers=2, heap="1g", tag="mpr_u7")]
     if tier != "quick":
         jobs[0]["cfg"], jobs[1]["cfg"] = "Mpr_intersection_2.cfg", "Mpr_penetration_2.cfg"
-    i, p, b, c, a = tlc.run_many(jobs)
-    for r, name in ((i, "intersection"), (p, "penetration")):
+    i, p, b, c, a, i7, p7, u7 = tlc.run_many(jobs)
+    if "MissIsNotDeep" not in u7.invariant_violated:
+        res.machinery("the MPR variant with an unnormalised portal direction did not violate MissIsNotDeep on scaled scenes (vacuous model)")
+    res.add_tlc(u7)
+    for r, name in ((i, "intersection"), (p, "penetration"), (i7, "intersection, scale 2^-7"), (p7, "penetration, scale 2^-7")):
         res.add_tlc(r)
         if r.invariant_violated:
             res.violation(f"mc:Mpr:{name}", "ModelInvariant", f"TLC: {r.invariant_violated} violated on the MPR model ({name})", {"tlc_tail": r.out[-3000:]})
@@ -105,10 +111,12 @@ def record(scene_list, rng):
         for mode in ("intersection", "penetration"):
             maxit = rng.choice((100, 100, 12))
             ties = rng.random() < 0.5
+            scale = 7 if rng.random() < 0.3 else 0          # 2^-7: the smallest feature sizes of the domain, exact in binary floating point
+            sc = 2.0 ** -scale
             VA, VB = list(SHAPES[a]), list(SHAPES[b])
             rng.shuffle(VA); rng.shuffle(VB)
-            A = np.array(VA, dtype=float)
-            B = np.array(VB, dtype=float) + np.array(t, dtype=float)
+            A = np.array(VA, dtype=float) * sc
+            B = (np.array(VB, dtype=float) + np.array(t, dtype=float)) * sc
             D = sorted({tuple(int(x) for x in (np.array(p) - np.array(q) - np.array(t))) for p in SHAPES[a] for q in SHAPES[b]})
             sid = f"m{k}"; k += 1
             log = []
@@ -122,7 +130,7 @@ def record(scene_list, rng):
                         out = mpr.mpr_penetration(ca, cb, max_iterations=maxit)
                         res["answer"] = bool(out[0])
                         if out[0]:
-                            d = float(out[1])
+                            d = float(out[1]) / sc
                             res["depthneg"] = bool(d < 0.0)
                             fr = Fraction(d * d).limit_denominator(20000)
                             if abs(float(fr) - d * d) <= 1e-9 * max(1.0, d * d):
@@ -131,12 +139,12 @@ def record(scene_list, rng):
                 res["exc"] = type(e).__name__
             cs = [p for kind, p in log if kind == "c"]
             sups = [p for kind, p in log if kind == "s"]
-            c = lat(cs[0] - cs[1]) if len(cs) >= 2 else [99, 99, 99]
-            ev = [{"ev": "scene", "id": sid, "D": [list(p) for p in D], "c": c, "mode": mode, "maxit": maxit}]
+            c = lat((cs[0] - cs[1]) / sc) if len(cs) >= 2 else [99, 99, 99]
+            ev = [{"ev": "scene", "id": sid, "D": [list(p) for p in D], "c": c, "mode": mode, "maxit": maxit, "scale": scale}]
             for j in range(0, len(sups) - 1, 2):
-                ev.append({"ev": "iter", "id": f"{sid}.{j // 2}", "w": lat(sups[j] - sups[j + 1])})
+                ev.append({"ev": "iter", "id": f"{sid}.{j // 2}", "w": lat((sups[j] - sups[j + 1]) / sc)})
             ev.append(res)
-            runs.setdefault((mode, maxit), []).append((sid, (a, b, t, mode, maxit, ties), ev))
+            runs.setdefault((mode, maxit, scale), []).append((sid, (a, b, t, mode, maxit, ties, scale), ev))
     return runs
 
 
@@ -144,10 +152,10 @@ def validate(res, runs, name):
     from .trace import parse_rejects
     os.makedirs(os.path.join(WORK, "traces"), exist_ok=True)
     jobs, files = [], []
-    for (mode, maxit), lst in runs.items():
+    for (mode, maxit, scale), lst in runs.items():
         nsh = max(1, min(4, len(lst) // 40 + 1))
         for sh in range(nsh):
-            p = os.path.join(WORK, "traces", f"{name}_{os.getpid()}_{mode}_{maxit}_{sh}.ndjson")
+            p = os.path.join(WORK, "traces", f"{name}_{os.getpid()}_{mode}_{maxit}_{scale}_{sh}.ndjson")
             n = 0
             with open(p, "w") as fh:
                 for sid, meta, ev in lst[sh::nsh]:
@@ -155,8 +163,8 @@ def validate(res, runs, name):
                         fh.write(json.dumps(e, separators=(",", ":")) + "\n"); n += 1
                 fh.write(json.dumps({"ev": "end", "id": "end", "count": n}) + "\n")
             files.append((p, n + 1))
-            jobs.append(dict(spec_dir="c18", module="MprTrace", cfg=f"MprTrace_{mode}_{maxit}.cfg", workers=1, env={"TRACE_FILE": p}, heap="1g",
-                             timeout=3600, tag=f"{name}_{mode}_{maxit}_{sh}"))
+            jobs.append(dict(spec_dir="c18", module="MprTrace", cfg=f"MprTrace_{mode}_{maxit}" + ("_s7" if scale else "") + ".cfg", workers=1, env={"TRACE_FILE": p}, heap="1g",
+                             timeout=3600, tag=f"{name}_{mode}_{maxit}_{scale}_{sh}"))
     outs = tlc.run_many(jobs)
     rejects = {}
     for r, (p, n) in zip(outs, files):
